@@ -88,6 +88,7 @@ func (d *Data) PutLabels(v dvid.VersionID, subvol *dvid.Subvolume, data []byte, 
 	// Iterate through index space for this data.
 	mutID := d.NewMutationID()
 	downresMut := downres.NewMutation(d, v, mutID)
+	defer downresMut.Abort() // releases the scales if we return before Execute
 
 	wg := new(sync.WaitGroup)
 
@@ -436,6 +437,7 @@ func (d *Data) storeBlocks(ctx *datastore.VersionedCtx, r io.ReadCloser, scale u
 	if downscale {
 		downresMut = downres.NewMutation(d, ctx.VersionID(), mutID)
 	}
+	defer downresMut.Abort() // releases the scales if we return before Execute
 
 	svmap, err := getMapping(d, ctx.VersionID())
 	if err != nil {
